@@ -8,6 +8,8 @@
  *                         every later write to the same descriptor (a disk that fills up); the process goes on
  *   VF_CP_KILL_AT_MARK=m  kill when the application announces iteration m (vf_cp_mark)
  *   VF_CP_KILL_FIRST_WRITE=1  kill before the first write/writev event of this process
+ *   VF_CP_JITTER=seed     every event is preceded, with probability 1/4 (hash of seed, thread and a per-thread counter), by a 20 ms
+ *                         sleep: threads that touch the files concurrently get out of step, so that windows between their system calls open
  * VF_CP_LOG=<file> receives one line per event, written with a raw write so that it survives the kill. */
 #define _GNU_SOURCE
 #include <dlfcn.h>
@@ -29,6 +31,8 @@ static const char* cp_dir;
 static size_t cp_dir_len;
 static long kill_before = -1, kill_after = -1, partial_ev = -1, partial_bytes = -1, fail_ev = -1, fail_bytes = 0, kill_at_mark = -1;
 static int kill_first_write = 0;
+static long jitter = -1;
+static __thread unsigned long jitter_count = 0;
 static char failing[MAXFD];
 static int log_fd = -1;
 static long event_no = 0;
@@ -47,6 +51,7 @@ static void init(void)
     if ((s = getenv("VF_CP_FAIL"))) { fail_ev = atol(s); const char* c = strchr(s, ':'); fail_bytes = c ? atol(c + 1) : 0; }
     if ((s = getenv("VF_CP_KILL_AT_MARK"))) kill_at_mark = atol(s);
     if ((s = getenv("VF_CP_KILL_FIRST_WRITE"))) kill_first_write = atoi(s);
+    if ((s = getenv("VF_CP_JITTER"))) jitter = atol(s);
     if ((s = getenv("VF_CP_LOG"))) log_fd = (int)syscall(SYS_openat, AT_FDCWD, s, O_WRONLY | O_CREAT | O_APPEND, 0644);
 }
 
@@ -77,7 +82,13 @@ static void die(void)
 /* returns the event number; kills if this is the kill-before point */
 static long begin_event(const char* name, const char* what, long bytes)
 {
-    long n = ++event_no;
+    if (jitter >= 0)
+    {
+        unsigned long long z = (unsigned long long)jitter * 0x9e3779b97f4a7c15ULL + (unsigned long long)syscall(SYS_gettid) * 0xbf58476d1ce4e5b9ULL + (++jitter_count) * 0x94d049bb133111ebULL;
+        z ^= z >> 31; z *= 0xbf58476d1ce4e5b9ULL; z ^= z >> 29;
+        if ((z & 3) == 0) usleep(20000);
+    }
+    long n = __sync_add_and_fetch(&event_no, 1);
     logline("EV %ld %s %s %ld\n", n, name, what ? what : "-", bytes);
     if (n == kill_before) die();
     return n;
